@@ -517,7 +517,7 @@ func waitUntil(timeout time.Duration, cond func() bool) bool {
 // TestC13SwarmCancel: cancellation through real swarms.
 func TestC13SwarmCancel(t *testing.T) {
 	const sub = "C13.swarm_cancel"
-	ev.Rule(sub, "rapid: Receive / ServeAsk on the in-memory virtual swarm and Receive on the UDP swarm, each with a context cancelled after 0-20 ms while 0-3 competing receivers stay blocked and 0-5 messages arrive around the cancel time. Oracle: the cancelled call returns the context's error within 500 ms; every message told is seen by at most one receiver and none is consumed by the cancelled call without its callback running. non-trivial = >= 1 competing receiver or message in flight; distinct by (swarm, program)")
+	ev.Rule(sub, "rapid: Receive / ServeAsk on the in-memory virtual swarm and Receive on the UDP swarm, each with a context cancelled after 0-20 ms while 0-3 competing receivers stay blocked and 0-5 messages arrive around the cancel time. Oracle: the cancelled call returns the context's error within 500 ms; no competing receiver (live context, open swarm) returns; every message told is seen by at most one receiver and none is consumed by the cancelled call without its callback running. non-trivial = >= 1 competing receiver or message in flight; distinct by (swarm, program)")
 	rapid.Check(t, func(t *rapid.T) {
 		c13CaseStart = time.Now()
 		kind := rapid.SampledFrom([]string{"mem-receive", "mem-serveask", "udp-receive"}).Draw(t, "swarm")
@@ -567,6 +567,7 @@ func TestC13SwarmCancel(t *testing.T) {
 			closeAll = func() { a.Close(); b.Close() }
 		}
 		var mu sync.Mutex
+		var earlyExit error // a competing receiver returned although its context was alive and the swarm open
 		seen := map[string]int{}
 		note := func(id string) {
 			mu.Lock()
@@ -579,7 +580,20 @@ func TestC13SwarmCancel(t *testing.T) {
 			cwg.Add(1)
 			go func() {
 				defer cwg.Done()
-				for recv(bg, note) == nil {
+				for {
+					err := recv(bg, note)
+					if err == nil {
+						continue
+					}
+					if bg.Err() == nil {
+						// its context is alive and the swarm is open: nothing entitles this call to give up
+						mu.Lock()
+						if earlyExit == nil {
+							earlyExit = err
+						}
+						mu.Unlock()
+					}
+					return
 				}
 			}()
 		}
@@ -617,9 +631,16 @@ func TestC13SwarmCancel(t *testing.T) {
 			}
 		}
 		finish := func() {
+			time.Sleep(2 * time.Millisecond)
+			mu.Lock()
+			ee := earlyExit
+			mu.Unlock()
 			stopCompeting()
 			closeAll()
 			cwg.Wait()
+			if ee != nil {
+				t.Fatalf("a competing %s call with a live context on an open swarm returned %v when another receiver was cancelled (what arrives next is lost)\ncase: %s", kind, ee, desc)
+			}
 		}
 		if late {
 			key := ""
